@@ -127,7 +127,7 @@ func checkC05(c *Checker) {
 						}
 					}
 					x.walk(func(y *Term) bool {
-						if y.Op == OpAtom && y.Loop == nil && y.Name != src.name+".bitDepth" && y.Name != dst.name+".bitDepth" && !strings.HasPrefix(y.Name, "sizeof(") {
+						if y.Op == OpAtom && y.Loop == nil && y.Name != src.name+hdrLayout.depthSuffix() && y.Name != dst.name+hdrLayout.depthSuffix() && !strings.HasPrefix(y.Name, "sizeof(") {
 							okR2, d2 = false, what+" depends on "+y.Name+" (neither the sample nor a bit depth)"
 						}
 						if y.Op == OpUnknown {
